@@ -340,18 +340,51 @@ class Run:
                 tl = tail(rx["out"], 80)
                 hist = open(p2).read().splitlines()
                 idx = hwm - 1
+        full_run = False
+        if not rejected_again and not head.get("nondet"):
+            # The history alone is accepted.  Behaviour that depends on state carried across histories (a package-level
+            # cache, a pooled buffer, an earlier call's side effect) only shows in the context of the whole run: run the
+            # whole driver again and look at the same history there.  The driver is deterministic in (seed, tier, args),
+            # so a violation of this kind reproduces exactly; anything else stays unconfirmed.
+            out3, meta3 = self.drive(driver, args=meta.get("_args"), race=meta.get("_race", False), outdir=self.sub("repro-full"),
+                                     tier=head.get("tier"), seed=head.get("seed"))
+            for job in meta3.get("jobs", []):
+                if job["spec"] != spec:
+                    continue
+                p3 = os.path.join(out3, job["trace"])
+                l3 = open(p3).read().splitlines()
+                hs = [h for h in split_histories(l3) if is_reset(h[0]) and json.loads(h[0]).get("gen") == gen and json.loads(h[0]).get("case") == case]
+                if not hs:
+                    continue
+                # judge the run up to and including that history (its context), not the history alone
+                upto = []
+                for h in split_histories(l3):
+                    upto += h
+                    if h is hs[0] or h == hs[0]:
+                        break
+                pc = os.path.join(out3, "_ctx_" + job["trace"])
+                open(pc, "w").write("\n".join(upto) + "\n")
+                acc, hwm, n, r = self.validate_file(spec, pc, dfs=dfs)
+                if not acc and hwm - 1 >= len(upto) - len(hs[0]):
+                    rejected_again = True
+                    full_run = True
+                    _, _, _, rx = self.validate_file(spec, pc, dfs=dfs, explain=True)
+                    tl = tail(rx["out"], 80)
+                    hist = hs[0]
+                    idx = hwm - 1 - (len(upto) - len(hs[0]))
+                    log("NOTE history %s/%s is accepted on its own but rejected again in the context of the whole run: behaviour depends on state carried across calls" % (gen, case))
         if not rejected_again:
             if head.get("nondet"):
                 log("NOTE rejected history %s/%s did not reproduce (timing dependent); recorded as unconfirmed" % (gen, case))
                 self.extra.setdefault("unconfirmed_rejections", []).append(dict(gen=gen, case=case))
                 raise MachineryError("rejection of %s/%s did not reproduce" % (gen, case))
-            raise MachineryError("rejection of history %s/%s did not reproduce on a second run" % (gen, case))
+            raise MachineryError("rejection of history %s/%s did not reproduce on a second run (alone or in the context of the whole run)" % (gen, case))
         # 2. write the replay
         os.makedirs(os.path.join(VERIF, "replays"), exist_ok=True)
         name = "%s-%s-%s-s%d.json" % (self.pid, gen, case, head.get("seed", self.seed))
         rp = os.path.join(VERIF, "replays", name)
         rec = dict(property=self.pid, driver=driver, spec=spec, tier=head.get("tier", self.tier), seed=head.get("seed", self.seed), gen=gen, case=case,
-                   args=meta.get("_args") or {}, race=meta.get("_race", False), dfs=dfs,
+                   args=meta.get("_args") or {}, race=meta.get("_race", False), dfs=dfs, full_run=full_run,
                    rejected_event_index=idx, rejected_event=safe_json(hist[idx]) if idx < len(hist) else None,
                    history=[safe_json(x, 2000) for x in hist[:400]], tlc_explanation=tl)
         json.dump(rec, open(rp, "w"), indent=1)
@@ -549,12 +582,31 @@ def replay(run, path):
     rec = json.load(open(path))
     run.tier = rec.get("tier", run.tier)
     run.seed = rec.get("seed", run.seed)
-    out, meta = run.drive(rec["driver"], gen=rec["gen"], case=rec["case"], args=rec.get("args"), race=rec.get("race", False))
+    full = rec.get("full_run", False)
+    if full:
+        out, meta = run.drive(rec["driver"], args=rec.get("args"), race=rec.get("race", False))
+    else:
+        out, meta = run.drive(rec["driver"], gen=rec["gen"], case=rec["case"], args=rec.get("args"), race=rec.get("race", False))
     bad = False
     for job in meta.get("jobs", []):
+        if full and job["spec"] != rec.get("spec"):
+            continue
         p = os.path.join(out, job["trace"])
         if not open(p).read().strip():
             continue
+        if full:
+            # judge the run up to and including the recorded history
+            upto, seen = [], False
+            for h in split_histories(open(p).read().splitlines()):
+                upto += h
+                hd = json.loads(h[0]) if is_reset(h[0]) else {}
+                if hd.get("gen") == rec["gen"] and hd.get("case") == rec["case"]:
+                    seen = True
+                    break
+            if not seen:
+                continue
+            p = os.path.join(out, "_ctx_" + job["trace"])
+            open(p, "w").write("\n".join(upto) + "\n")
         acc, hwm, n, r = run.validate_file(job["spec"], p, dfs=rec.get("dfs", False))
         if not acc:
             bad = True
